@@ -27,12 +27,12 @@ READY = True
 LEAN_TARGETS = ["NauyacaVerif.Props.C14"]
 THEOREMS = [f"NauyacaVerif.C14.{t}" for t in
             ("upload_effects", "upload_target_canonical", "upload_confined", "upload_content", "upload_guarded", "success_guarded",
-             "nonsuccess_no_change", "success_upload", "success_delete")]
+             "nonsuccess_no_change", "nonsuccess_no_dirs", "success_upload", "success_delete")]
 EXTRACT: list[str] = []
 ASSUMPTIONS = [
     "OS path-resolution contract: an operation on a fully resolved path whose ancestors are real directories touches that path only; Path.resolve() follows what the kernel follows (the symlink-tree port of posixpath._joinrealpath is tied to the real filesystem by this run only)",
     "no concurrent modification of the upload tree between resolve() and the write (single request at a time)",
-    "the temporary name .NAME.PID.upload next to the target is not in use (hypothesis TempFree of the theorems; cases that violate it are generated and judged by the direct oracle only)",
+    "the file map of the theorems is consistent with the OS (a path holding a file has an lstat entry): then the exclusively created temporary file never coincides with an existing entry; the harness pins secrets.token_hex and os.getpid-style names so that collisions ARE generated",
     "the Titan line is parsed by the URL model with an ASCII host; Python's int()/str.strip() are modelled on their ASCII + Unicode-whitespace fragment",
 ]
 LEVEL_TEXT = "partial"
